@@ -201,7 +201,7 @@ func runPlan(p Plan) (vk.Outcome, error) {
 	var out vk.Outcome
 	var l xlist.List[int]
 	var model []handle
-	var removedHandles []handle
+	var removedHandles, clearedHandles []handle
 	next := 0
 	removed, cleared, nontrivial := false, false, false
 	newVal := func() int { next++; return next }
@@ -334,6 +334,8 @@ func runPlan(p Plan) (vk.Outcome, error) {
 			}
 		case "Clear":
 			l.Clear()
+			// the handles of the cleared nodes stay with the caller: their Value is never touched
+			clearedHandles = append(clearedHandles, model...)
 			model = nil
 			cleared = true
 			out.Label("clear")
@@ -346,6 +348,18 @@ func runPlan(p Plan) (vk.Outcome, error) {
 		}
 		if err := checkRemoved(removedHandles, model, what); err != nil {
 			return out, err
+		}
+		live := map[*xlist.Node[int]]bool{}
+		for _, h := range model {
+			live[h.n] = true
+		}
+		for _, h := range clearedHandles {
+			if h.n.Value != h.val {
+				return out, vk.Violf("value-touched", "%s: the handle of a node that was in the list when it was cleared now has Value %d, it was created with %d", what, h.n.Value, h.val)
+			}
+			if live[h.n] {
+				return out, vk.Violf("handle-reused", "%s: the handle of a cleared node (value %d) was handed out again as a new node", what, h.val)
+			}
 		}
 	}
 	out.NonTrivial = nontrivial
